@@ -5,6 +5,18 @@ CACHE_FACTS = ['cacheGetExpiry', 'cacheCleanupExpiry', 'cacheEvictExpiry', 'cach
 CACHE_TRUSTED = ['sync.RWMutex, container/list and Go maps behave as documented; the monotonic clock is non-decreasing (virtual clock in the runs)']
 
 PROPS = {
+    'C02': dict(
+        family='jwt', fields=['r'], crash_is_violation=True,
+        facts=['supportedAlgs', 'hashAlgs', 'rsaAlgPrefixes', 'ecAlgPrefixes', 'skewFutureSec', 'skewPastSec', 'nbfTypeChecked', 'ecdsaSigLenExact'],
+        trusted=['parsing (three-part split, base64url, JSON) and the cryptographic signature check are computed by the harness with Go\'s encoding/* and crypto/* directly (reference decoders); the Lean model starts from the parsed token',
+                 'ECDSA (r, n-s) malleability yields a valid signature value and is accepted by the reference as well'],
+        rule='one case = one token string presented once to VerifyToken of a real instance (per key of RSA 2048/3072/4096 and EC P-256/384/521 and per algorithm: a valid token and ~330 single deviations of '
+             'every header field, every claim (missing / each wrong JSON type / boundary -1,0,+1 s around each tolerance incl. fractional seconds), byte-level mutations of the three parts, '
+             'signature re-encodings, kid/alg confusion incl. HS256 keyed with the public key, sampled double deviations, and a raw malformed stream); distinct = distinct (label, abstract token, answer); '
+             'non-trivial = every case except the raw malformed stream',
+        assumptions=['numeric claims outside +-4e18 are outside the compared domain (Go float to int64 conversion is implementation-defined there)'],
+        explanation='Lean theorem verify_iff (staged verifier in the code\'s order <=> flat statement of the property) with corollaries per deviation class and accept_interval; tie: accept/reject of every generated token replayed on the abstract description; oracle: reference verifier = the property\'s iff, both directions',
+    ),
     'C12': dict(
         family='cache', fields=['r', 'len', 'order'], facts=CACHE_FACTS, trusted=CACHE_TRUSTED,
         rule='one case = one Set/Get/Delete/Cleanup/tick step on the real Cache in virtual time (families: dense tiny caches, boundary lifetimes, '
